@@ -23,7 +23,7 @@ JOBS = 12
 SPEC_TIMEOUT = 150
 CONFIRM_ALONE = ('join_slow', 'join_hung')
 FLOORS = {
-    'quick': {'real:scenarios': 30, 'real:pending_at_close': 15, 'real:jobs_checked': 120,
+    'quick': {'real:scenarios': 30, 'real:pending_at_close': 8, 'real:jobs_checked': 120,
               'real:post_close_refusals': 150, 'real:with_map': 10, 'real:with_imap': 10,
               'real:recycling': 5},
     'thorough': {'real:scenarios': 200, 'real:pending_at_close': 100, 'real:jobs_checked': 900},
